@@ -21,12 +21,9 @@ import (
 	"go/printer"
 	"go/token"
 	"go/types"
-	"os"
 	"path/filepath"
 	"sort"
 	"strings"
-
-	"golang.org/x/tools/go/packages"
 )
 
 func init() {
@@ -55,22 +52,9 @@ func mrBodyText(fset *token.FileSet, body *ast.BlockStmt) string {
 }
 
 func genMapRanges(repo string) (string, error) {
-	cfg := &packages.Config{
-		Mode:  packages.NeedName | packages.NeedFiles | packages.NeedSyntax | packages.NeedTypes | packages.NeedTypesInfo | packages.NeedImports | packages.NeedDeps,
-		Dir:   repo,
-		Tests: false,
-		Env:   append(os.Environ(), "GOFLAGS=-mod=mod", "GOPROXY=off"),
-	}
-	pkgs, err := packages.Load(cfg, "./internal/compiler")
+	pkg, err := c30Load(repo)
 	if err != nil {
-		return "", fmt.Errorf("shape not recognised: cannot load internal/compiler: %v", err)
-	}
-	if len(pkgs) != 1 {
-		return "", fmt.Errorf("shape not recognised: %d packages for ./internal/compiler", len(pkgs))
-	}
-	pkg := pkgs[0]
-	if len(pkg.Errors) > 0 {
-		return "", fmt.Errorf("shape not recognised: internal/compiler does not type-check: %v", pkg.Errors[0])
+		return "", err
 	}
 	var sites []mrSite
 	for _, f := range pkg.Syntax {
